@@ -1,6 +1,18 @@
 """Registry of claimed checks (drives tools/mkmanifest.py)."""
 
 REGISTRY = {
+    "C14": {
+        "text": "33 shape templates (straight-line code, loops, if/else, switch by bodies and by case count, try/finally, literals, calls, parameters, constants, globals, locals, captured variables, functions, operator/ternary chains, loops that start late in the function) each with a closed-form result are compiled and run at scales n swept across the operand boundary (255/256), the jump boundary (65535/65536 bytes, placed per template) and beyond. Deciding monitors: closed-form oracle; icontract postconditions on the real Compiler._emit/_patch_jump (bytes written encode the operand/target exactly - masking or wrap is the truncation the property forbids); a decode monitor in the VM step hook (instruction pointer always on an instruction boundary of the running function); only a JSError naming the size, raised before any instruction runs, counts as refusal.",
+        "design_ref": "DESIGN.md 3/C14",
+        "note": "Scales are sampled; the contracts are attached to the compiler class in the worker before any compilation and their evaluation counts are reported (zero = inconclusive).",
+        "technique": "runtime contracts (icontract) on the real bytecode emitter + decode invariant at the VM step hook + closed-form result oracle across encoding boundaries",
+    },
+    "C15": {
+        "text": "Closure-heavy generated programs (many locals/parameters, captured and pass-through variables over 3-4 levels, named function expressions, arguments, arrows, reused names), random programs and the repository's corpus scripts are evaluated on fresh contexts in separate processes under 16 (quick) / 48 (thorough) PYTHONHASHSEED values, and in one process in 5 shuffled orders, after polluter programs on other contexts, with another virtual-clock origin, and repeated; digests of typed outcome + ordered log must be identical. The check also fingerprints each compiled function's locals/free_vars/cell_vars order and is inconclusive unless some programs really had different slot layouts across seeds (so the seed dimension was exercised).",
+        "design_ref": "DESIGN.md 3/C15",
+        "note": "Programs using Math.random/Date.now are excluded. Self-consistency only: no reference needed.",
+        "technique": "metamorphic runtime monitor: same source across hash seeds (separate processes), batch orders, process histories and clock origins, with slot-layout exercise evidence",
+    },
     "C07": {
         "text": "38 throw sites (throw of every value type, runtime TypeError/ReferenceError/RangeError/SyntaxError from operators and raising built-ins, throws inside code run by built-ins: callbacks, comparators, accessors, conversions, eval, call/apply) x 12 handler placements (same function, caller, across one and two native frames, finally-only, rethrow, throw from catch, throw/return from finally, mid-expression, in a loop, none), the try-ish cells of the skeleton grid in every expression context, and seeded random instrumented try trees are run on the real engine. Deciding monitors: node differential on the ordered log and outcome; an offline exactly-once checker over E/C/F/L events per try activation (needs no reference); error-object probes (instanceof constructor and Error, name, message type); absolute and shifted lineNumber/columnNumber for thrown and runtime errors; uncaught throws must surface as JSError whose text contains the thrown message/primitive.",
         "design_ref": "DESIGN.md 3/C07",
